@@ -173,7 +173,7 @@ var c10ZKinds = func() []c10ZKind {
 		{Name: "named-str", Typ: reflect.TypeOf(c10ZStr("")), SQL: "text", Vars: []c10ZVar{{"empty", true, c10ZStr(""), "", nil}, {"n", false, c10ZStr("n"), "n", nil}}},
 		{Name: "named-int", Typ: reflect.TypeOf(c10ZInt(0)), SQL: "integer", Vars: []c10ZVar{{"0", true, c10ZInt(0), int64(0), nil}, {"9", false, c10ZInt(9), int64(9), nil}}},
 		{Name: "valuer-struct", Typ: reflect.TypeOf(c10ZPoint{}), SQL: "text", Vars: []c10ZVar{{"zero", true, c10ZPoint{}, "0,0", nil}, {"0,3", false, c10ZPoint{0, 3}, "0,3", nil}, {"1,2", false, c10ZPoint{1, 2}, "1,2", nil}}},
-		{Name: "valuer-slice", Typ: reflect.TypeOf(c10ZStrs(nil)), SQL: "text", Vars: []c10ZVar{{"nil", true, c10ZStrs(nil), nil, nil}, {"empty", false, c10ZStrs{}, "", nil}, {"a|b", false, c10ZStrs{"a", "b"}, "a|b", nil}}},
+		{Name: "valuer-slice", Typ: reflect.TypeOf(c10ZStrs(nil)), Tag: "type:text", SQL: "text", Vars: []c10ZVar{{"nil", true, c10ZStrs(nil), nil, nil}, {"empty", false, c10ZStrs{}, "", nil}, {"a|b", false, c10ZStrs{"a", "b"}, "a|b", nil}}},
 		{Name: "valuer-array", Typ: reflect.TypeOf(c10ZArr{}), SQL: "text", Vars: []c10ZVar{{"zero", true, c10ZArr{}, "0;0", nil}, {"0;1", false, c10ZArr{0, 1}, "0;1", nil}, {"4;0", false, c10ZArr{4, 0}, "4;0", nil}}},
 		{Name: "json-slice", Typ: reflect.TypeOf([]string(nil)), Tag: "serializer:json", SQL: "text", Vars: []c10ZVar{{"nil", true, []string(nil), nil, nil},
 			{"empty", false, []string{}, "[]", "[]"}, {"a", false, []string{"a"}, `["a"]`, `["a"]`}}},
@@ -447,6 +447,9 @@ func genC10KCase(rng *rand.Rand, r *Result) *c10ZCase {
 	default:
 		c.Rows = []c10ZRow{genC10KRow(rng, s, 0, 45)}
 	}
+	if strings.HasPrefix(c.Path, "create") && len(c.Selects) > 0 && !c10Has(c.Selects, "*") {
+		c.Selects = append(c.Selects, "ID") // keep the given key in the INSERT: created rows are found by it
+	}
 	if strings.HasSuffix(c.Path, "_map") || c.Path == "update1" {
 		used := map[string]bool{}
 		n := 1 + rng.Intn(3)
@@ -461,7 +464,7 @@ func genC10KCase(rng *rand.Rand, r *Result) *c10ZCase {
 			}
 			used[f.Name] = true
 			key := s.col(j)
-			if rng.Intn(2) == 0 {
+			if rng.Intn(2) == 0 || f.Perm == "-" { // an ignored field has no column: its snake-case name would be a RAW column name for gorm
 				key = f.Name
 			}
 			vi := rng.Intn(len(c10ZKindOf(f.Kind).Vars))
@@ -653,11 +656,12 @@ func c10ZSetup(s c10ZSch) (*gorm.DB, *sql.DB) {
 	for i, f := range s.Fields[1:] {
 		defs = append(defs, "`"+s.col(i+1)+"` "+c10ZKindOf(f.Kind).SQL)
 	}
+	defs = append(defs, "k_ integer") // stable row identity for the dump (a write may legitimately re-key a row)
 	if _, err := sqlDB.Exec("CREATE TABLE " + c10ZTable + " (" + strings.Join(defs, ", ") + ")"); err != nil {
 		panic(fmt.Sprint(err, defs))
 	}
 	for k := 1; k <= 3; k++ {
-		cols, ph, args := []string{"`id`"}, []string{"?"}, []interface{}{k}
+		cols, ph, args := []string{"`id`", "k_"}, []string{"?", "?"}, []interface{}{k, k}
 		for i, f := range s.Fields[1:] {
 			vars := c10ZKindOf(f.Kind).Vars
 			cols, ph, args = append(cols, "`"+s.col(i+1)+"`"), append(ph, "?"), append(args, vars[len(vars)-1].Drv)
@@ -669,6 +673,7 @@ func c10ZSetup(s c10ZSch) (*gorm.DB, *sql.DB) {
 	return db, sqlDB
 }
 
+// c10ZDump: existing rows by k_ (1..3); rows created by the write (k_ NULL) by 1000 + id
 func c10ZDump(sqlDB *sql.DB) map[int]map[string]string {
 	out := map[int]map[string]string{}
 	rows, err := sqlDB.Query("SELECT * FROM " + c10ZTable + " ORDER BY `id`")
@@ -691,7 +696,12 @@ func c10ZDump(sqlDB *sql.DB) map[int]map[string]string {
 			m[c] = c10ZCell(vals[i])
 		}
 		var k int
-		fmt.Sscan(m["id"], &k)
+		if m["k_"] == "<nil>" {
+			fmt.Sscan(m["id"], &k)
+			k += 1000
+		} else {
+			fmt.Sscan(m["k_"], &k)
+		}
 		out[k] = m
 	}
 	return out
@@ -763,9 +773,21 @@ func c10ZJudge(c *c10ZCase, r *Result) (verdict string, detail map[string]interf
 				col = "id"
 			}
 			was, is := b[col], a[col]
-			if !targeted || i == 0 {
+			if !targeted {
 				if was != is {
 					return bad("row %d is not targeted but column %s changed %q -> %q", k, col, was, is), detail
+				}
+				continue
+			}
+			if i == 0 {
+				// the key column: a struct value that is NOT the model carries ID = 0; it is written only when selected
+				rekey := (c.Path == "upd_struct" || c.Path == "updcols_struct" || c.Path == "upd_nomodel") && !failed &&
+					!c10ZNamed(s, 0, c.Omits) && (selAll || c10ZNamed(s, 0, c.Selects))
+				if rekey && is != "0" {
+					return bad("row %d: the key column is selected, expected the given value \"0\", found %q", k, is), detail
+				}
+				if !rekey && was != is {
+					return bad("row %d: the key column is outside the write set but changed %q -> %q", k, was, is), detail
 				}
 				continue
 			}
@@ -815,6 +837,9 @@ func c10ZJudge(c *c10ZCase, r *Result) (verdict string, detail map[string]interf
 				if isUpsert && v.Zero {
 					accept = append(accept, "<nil>") // latitude: zero-valued fields of created / upserted rows
 				}
+				if c.Rows[0].NilEmbed && strings.HasPrefix(f.Embed, "*") {
+					accept = append(accept, "<nil>") // latitude: a selected field below a nil embedded pointer has no Go value; NULL or the zero value's encoding
+				}
 			}
 			if inSet {
 				if !c10Has(accept, is) {
@@ -827,7 +852,7 @@ func c10ZJudge(c *c10ZCase, r *Result) (verdict string, detail map[string]interf
 	}
 	if isCreate && !failed {
 		for _, row := range c.Rows {
-			a := after[row.ID]
+			a := after[1000+row.ID]
 			if a == nil {
 				return bad("created row %d is missing", row.ID), detail
 			}
@@ -989,6 +1014,10 @@ func init() {
 			func() {
 				defer func() {
 					if p := recover(); p != nil {
+						if c10ZNilEmbedSerializer(c) {
+							r.H("c10.stmt-kinds.gorm-panic", "nil-embedded serializer field (side finding, not judged)")
+							return
+						}
 						r.Violate(Violation{Kind: "correspondence", Suite: "stmt-kinds", Input: c, Observed: fmt.Sprint("panic: ", p), Note: "gorm panicked while building the DryRun statement"})
 					}
 				}()
@@ -1024,6 +1053,23 @@ func init() {
 			}
 		}
 	})
+}
+
+// c10ZNilEmbedSerializer: side finding (a panic, not a write-set question, so not judged by C10): writing a SELECTED
+// serializer field that lives inside a NIL pointer-embedded struct — ValueOf hands `&serializer{fieldValue: nil}` to
+// field.Set, whose `s.Serializer.Scan` branch dereferences the unset Serializer (schema/field.go, Set wrapper)
+func c10ZNilEmbedSerializer(c *c10ZCase) bool {
+	for _, row := range c.Rows {
+		if !row.NilEmbed {
+			continue
+		}
+		for _, f := range c.Schema.Fields {
+			if strings.HasPrefix(f.Embed, "*") && (strings.Contains(c10ZKindOf(f.Kind).Tag, "serializer:") || f.Kind == "self-serializer") {
+				return true
+			}
+		}
+	}
+	return false
 }
 
 func c10ZDropWhereID(w []string) []string {
